@@ -95,7 +95,24 @@ func C10(tier string) int {
 				}
 			}
 		}
-		cfgs = append(cfgs, Sample(all, sample, seed)...)
+		// stratified by (edit, in/out of range): Add_bond has one configuration per endpoint pair and
+		// would otherwise crowd the deletions out of the sample
+		groups := map[string][]Config{}
+		var order []string
+		for _, c := range all {
+			k := fmt.Sprint(c.Args[2].I, "/", c.Args[3].I)
+			if _, ok := groups[k]; !ok {
+				order = append(order, k)
+			}
+			groups[k] = append(groups[k], c)
+		}
+		for _, k := range order {
+			per := 0
+			if sample > 0 {
+				per = (sample + len(order) - 1) / len(order)
+			}
+			cfgs = append(cfgs, Sample(groups[k], per, seed)...)
+		}
 	}
 	sp := &Spec{
 		ID: "C10", Level: "proof", Tier: tier,
@@ -109,7 +126,7 @@ func C10(tier string) int {
 			"panics in the edit functions are obligations (none may be reachable)",
 			"shapes beyond the history-length bound are outside the claim",
 		},
-		Bounds: map[string]interface{}{"history_length_max": maxLen, "domain_sets_NM": domSets, "edits": c10Edits, "sampled_per_domain_set": sample},
+		Bounds: map[string]interface{}{"history_length_max": maxLen, "domain_sets_NM": domSets, "edits": c10Edits, "sampled_per_domain_set": sample, "sampling": "stratified by (edit, in/out of range)"},
 		Rule:   "one obligation = one zzAssert/panic site of the harness under one (domain set, history, edit, in/out-of-range) configuration; non-trivial = reachability witness sat and the obligation's negation was sent to the solver; distinct by (function, args, tag, position)",
 	}
 	return Execute(sp)
